@@ -119,6 +119,19 @@ CHECKS["C10"] = dict(
     design_ref="DESIGN.md §5 C10",
     note="Trusted: Coq kernel (+Reals axioms for the scaling law); regex translator tools/translate_tables.py; femmcli Lua route for the queries; tolerance 3e-5 relative.",
     technique="Coq proof on tables regenerated from source + scaling-law proof on the assembly model + paired runs in two units")
+CHECKS["C11"] = dict(
+    category="proof",
+    text=("Coq theorems for every matrix the solvers can store (all sizes and patterns): the matrix-vector product is linear, "
+          "solutions superpose, zero excitation has the zero solution, and u.(Av) = v.(Au) because one entry is stored per "
+          "unordered pair (reciprocity of mutual charges, heat flows, flux linkages); the element-level elimination of "
+          "prescribed values is linear and leaves a matrix independent of the excitations; element loads are proportional to "
+          "the sources. Real runs through femmcli on identical meshes: S1, S2, a*S1+b*S2, zero excitation, unit excitation of "
+          "each of two terminals, for electrostatics, heat and magnetics, planar, axisymmetric and time-harmonic; harmonic at "
+          "vanishing frequency vs static. Partial: uniqueness (non-singularity) is not proved; axisymmetric/harmonic magnetics "
+          "have no assembly model, their reciprocity is checked on runs (axisymmetric magnetics to mesh accuracy only)."),
+    design_ref="DESIGN.md §5 C11",
+    note="Trusted: Coq kernel + Reals axioms; femmcli Lua route; tolerances 3e-6 (fields) / 2e-5 (terminal quantities) relative.",
+    technique="Coq proof (linearity, symmetry => reciprocity) + superposition/reciprocity run relations on identical meshes")
 PENDING = {}
 def main():
     props = [json.loads(l) for l in open(os.path.join(V, "properties.jsonl"))]
